@@ -50,7 +50,7 @@ if _missing or _stale:
     # a class was added to / removed from the library: the zoo must be told (harness error, exit 2)
     raise RuntimeError(f"C07 zoo out of date: classes without driver or NOT_DRIVEN entry {_missing}; unknown classes {_stale}")
 
-RUNS = {"quick": 50 * len(NAMES), "thorough": 400_000}       # 50 seeds per driver on average (>= 20 each, see runs.<Driver>)
+RUNS = {"quick": 60 * len(NAMES), "thorough": 400_000}       # 60 seeds per driver on average (>= 20 each, see runs.<Driver>)
 WALL = {"quick": 58, "thorough": 1500}
 BATCH = {"quick": 25, "thorough": 150}
 SELFTEST_RUNS = 24
